@@ -32,11 +32,11 @@ impl GoModParser {
     pub fn new() -> Self {
         Self {
             // Match: require module/path v1.2.3 [// comment]
-            single_require_re: Regex::new(r"^require\s+(\S+)\s+(v[^\s]+)(?:\s*//.*)?$").unwrap(),
+            single_require_re: Regex::new(r"^require\s+(\S+)\s+(v[^\s]+)\s*(?://.*)?$").unwrap(),
             // Match: require (
             block_start_re: Regex::new(r"^require\s*\(\s*$").unwrap(),
             // Match: module/path v1.2.3 [// comment]
-            require_spec_re: Regex::new(r"^\s*(\S+)\s+(v[^\s]+)(?:\s*//.*)?$").unwrap(),
+            require_spec_re: Regex::new(r"^\s*(\S+)\s+(v[^\s]+)\s*(?://.*)?$").unwrap(),
         }
     }
 }
